@@ -235,7 +235,10 @@ def tok(entry):
 
 def trace_of(run, key):
     """A configuration is a mapping name -> value: entries sorted by name (the order of the keys of the dict is not part of the property)."""
-    return [[tok(e) for e in sorted(cfgl)] for cfgl in run.get(key) or []]
+    t = [[tok(e) for e in sorted(cfgl)] for cfgl in run.get(key) or []]
+    if run.get("error"):   # a run cut short by an exception: the error class is the last element of what was observed
+        t.append([tok(("!exception", run["error"], "exception"))])
+    return t
 
 
 def check_pair(case):
@@ -247,18 +250,21 @@ def check_pair(case):
     cb = start_child([spec_of(case, case["seed"], pb), spec_of(case, case["seed2"], pb)], hb)
     (A,), (B, C) = finish_child(ca, 1), finish_child(cb, 2)
     errs = [r.get("error") for r in (A, B, C)]
-    if any(errs):
-        if errs[0] == errs[1] and errs[0] and errs[0] not in ("ChildTimeout", "ChildCrashed"):
-            # the configuration itself raises, identically in both processes (e.g. topk/boltzmann: F03; GP + MES): not this property
-            res["desc"] = res["desc"] + ["reproducible_exception:" + errs[0]]
-            return res
-        return dict(res, ok=False, clause="exception_in_one_run", sig=sig_of(case, "exception_in_one_run", exc=str(errs)), nontrivial=True,
+    if any(e in ("ChildTimeout", "ChildCrashed") for e in errs):
+        return dict(res, ok=False, clause="child_" + [e for e in errs if e in ("ChildTimeout", "ChildCrashed")][0], sig=sig_of(case, "child_failed", exc=str(errs)), nontrivial=True,
                     detail=dict(errors=errs, trace=[r.get("trace") for r in (A, B, C)]))
+    for r in (A, B, C):
+        r.setdefault("asked", [])
+        r.setdefault("globals_touched", [False, False])
+    if errs[0] or errs[1] or errs[2]:
+        # a configuration that raises (topk/boltzmann: F03; GP + MES; RegularizedEvolution mutating into a forbidden clause): the proposals made
+        # before the exception and the exception class are the observable - identical in A and B = reproducible (the exception itself is not this property)
+        res["desc"] = res["desc"] + ["exception:%s" % e for e in sorted(set(filter(None, errs)))]
     res["nontrivial"] = len({json.dumps(c) for c in A["asked"]}) >= 3
     touched = [bool(x or y) for x, y in zip(A["globals_touched"], B["globals_touched"])]
     res["desc"] = res["desc"] + ["global_generators_touched=%s" % (any(touched))]
     for key in ("asked", "table"):
-        if key == "table" and "table" not in A:
+        if key == "table" and not ("table" in A and "table" in B and "table" in C):
             continue
         verdict, first = m.call(F_OK, [trace_of(A, key), trace_of(B, key), trace_of(C, key)])
         if verdict == 1:
@@ -266,8 +272,9 @@ def check_pair(case):
             return dict(res, ok=False, clause=CLAUSE[1], sig=sig_of(case, CLAUSE[1], cause=cause), nontrivial=True,
                         detail=dict(observable=key, first_difference_at=first, cause=cause, run_a=A[key][first:first + 1] if first < len(A[key]) else "shorter",
                                     run_b=B[key][first:first + 1] if first < len(B[key]) else "shorter", n_a=len(A[key]), n_b=len(B[key]),
-                                    processes=dict(a=dict(PYTHONHASHSEED=ha, perturb=pa), b=dict(PYTHONHASHSEED=hb, perturb=pb)), global_generators_touched=touched, **extra))
-        if verdict == 2:
+                                    processes=dict(a=dict(PYTHONHASHSEED=ha, perturb=pa), b=dict(PYTHONHASHSEED=hb, perturb=pb)), global_generators_touched=touched,
+                                    exceptions=dict(a=errs[0], b=errs[1]), **extra))
+        if verdict == 2 and not (len(A[key]) == 0 and errs[0]):   # nothing proposed before a reproducible exception: no seed can show
             return dict(res, ok=False, clause=CLAUSE[2], sig=sig_of(case, CLAUSE[2]), nontrivial=True,
                         detail=dict(observable=key, seeds=[case["seed"], case["seed2"]], n=len(A[key])))
     # model <-> code: a run that consumed numpy's / Python's global generator must have a reachable Global site in the model
